@@ -1104,11 +1104,15 @@ func (g *gen) behC19() M {
 // message type, random positions in a session.
 func (g *gen) behC10() M {
 	cfg := baseCfg()
-	limits := []int{16, 17, 31, 64, 100, 4095, 4096, 4097, 8191, 8192, 8193, 65536}
+	// (limits below 16 - the smallest buffer bufio hands out - are limits all the same)
+	limits := []int{8, 12, 15, 16, 17, 31, 64, 100, 4095, 4096, 4097, 8191, 8192, 8193, 65536}
 	L := limits[g.rng.Intn(len(limits))]
 	cfg["limit"] = L
 	cfg["term"] = "ok"
 	steps := []any{send(M{"t": "Startup", "term": true, "kvs": []any{M{"k": "user", "v": "u"}}})}
+	if L < 12 {
+		steps = []any{send(M{"t": "Startup", "term": true, "kvs": []any{}})} // the start-up packet has to fit as well
+	}
 	types := []string{"Q", "P", "B", "D", "E", "C", "H", "S", "X", "d", "c", "f", "p", "U"}
 	n := 1 + g.rng.Intn(8)
 	for i := 0; i < n; i++ {
